@@ -512,6 +512,7 @@ pub struct RunStats {
     pub collected_nodes: u64,
     pub truncated: u64,
     pub end_at_pause: u64,
+    pub livelock: u64,
 }
 
 pub struct RunObs {
@@ -529,8 +530,8 @@ pub struct RunObs {
     pub digest: u64,
 }
 
-struct CollectTracer {
-    roots: RefCell<Vec<Id>>,
+pub struct CollectTracer {
+    pub roots: RefCell<Vec<Id>>,
 }
 
 impl Tracer for CollectTracer {
@@ -550,7 +551,7 @@ fn ns_from(s: &str) -> Namespace {
 }
 
 /// Abstract driver interface so that the event loop is written once.
-trait Driven {
+pub trait Driven {
     fn feed(&self, q: &markup5ever::buffer_queue::BufferQueue) -> (FeedRes, Option<Id>);
     fn end(&self);
     fn collect(&self, extra_roots: &[Id]) -> usize;
@@ -599,14 +600,14 @@ impl Driven for TreeDriven {
     }
 }
 
-fn drive<D: Driven>(
+pub fn drive<D: Driven>(
     d: &D,
     probe: &Rc<Probe>,
-    case: &HtmlCase,
+    input: &str,
+    sched: &Schedule,
     nonchar_count: &dyn Fn() -> usize,
 ) -> (Vec<PauseObs>, Vec<FeedRes>, Option<String>, RunStats) {
-    let sched = &case.schedule;
-    let (chunks, _keep_parent) = make_chunks(&case.input, sched);
+    let (chunks, _keep_parent) = make_chunks(input, sched);
     let mut stats = RunStats::default();
     if sched.truncate_at.is_some() {
         stats.truncated = 1;
@@ -619,7 +620,7 @@ fn drive<D: Driven>(
     let mut pause_ord = 0usize;
     let mut held: Vec<Id> = vec![];
     let mut ended_early = false;
-    let max_feeds = 4 * (chunks.len() + case.input.len() + 64);
+    let max_feeds = 4 * (chunks.len() + input.len() + 64);
 
     let mut deliver = |next_chunk: &mut usize, stats: &mut RunStats| -> bool {
         if *next_chunk >= chunks.len() {
@@ -641,7 +642,9 @@ fn drive<D: Driven>(
             stats.feeds += 1;
             stats.events += 1;
             if stats.feeds as usize > max_feeds {
-                panic!("harness: feed loop exceeded {max_feeds} iterations (livelock)");
+                // feed() keeps reporting suspensions without consuming input
+                stats.livelock = 1;
+                break 'outer;
             }
             let (res, handle) = d.feed(&probe.queue);
             feed_results.push(res.clone());
@@ -747,7 +750,7 @@ pub fn run_html(case: &HtmlCase, record_calls: bool, emulate_never_mirror: bool)
             let (pauses, feed_results, qne, stats) = {
                 let recs = &d.tok.sink.recs;
                 let nc = || recs.borrow().iter().filter(|r| !r.ev.is_chars() && !r.ev.is_error() && r.ev != TokEv::Null).count();
-                drive(&d, &probe, case, &nc)
+                drive(&d, &probe, &case.input, &case.schedule, &nc)
             };
             let sink = d.tok.sink;
             finish_obs(sink.recs.into_inner(), pauses, feed_results, qne, sink.eof_count.get(), sink.after_eof.get(), sink.end_calls.get(), &probe, stats, None, None)
@@ -794,7 +797,7 @@ pub fn run_html(case: &HtmlCase, record_calls: bool, emulate_never_mirror: bool)
             let (pauses, feed_results, qne, stats) = {
                 let recs = &d.tok.sink.recs;
                 let nc = || recs.borrow().iter().filter(|r| !r.ev.is_chars() && !r.ev.is_error() && r.ev != TokEv::Null).count();
-                drive(&d, &probe, case, &nc)
+                drive(&d, &probe, &case.input, &case.schedule, &nc)
             };
             let rec = d.tok.sink;
             let flm = rec.forwarded_line_mismatch.into_inner();
